@@ -55,15 +55,38 @@ RadiusOK(e, keys, r) ==
          /\ IsRadius(keys, r.rkey, r.res)
          /\ EntryPtsOK(e, r.res)
 
-(* "ok" or the name of the first failing clause.  Construction must succeed
-   for every non-empty data set (the harness never sends an empty one). *)
+(***************************************************************************)
+(* A failing radius answer is classified.  "boundary-miss": the radius is  *)
+(* exactly the distance of some data point (kind "at"), the answer is      *)
+(* well-formed and correct except that it lacks points whose distance      *)
+(* EQUALS the radius.  With a metric whose floating-point arithmetic is    *)
+(* inexact this is how the cover tree's pruning test                       *)
+(* d <= radius + max_dist fails when the sum rounds below d (a known       *)
+(* finding, see known_findings/C04.json); every other failure — a point    *)
+(* strictly inside the radius missing, a point outside returned, a wrong   *)
+(* distance, a repeated index — keeps the plain clause name.               *)
+(***************************************************************************)
+BoundaryMiss(e, keys, r) ==
+    /\ r.rpos /\ r.status = "ok" /\ r.kind = "at"
+    /\ WellFormed(keys, r.res)
+    /\ EntryPtsOK(e, r.res)
+    /\ LET want == { i \in 1..Len(keys) : keys[i] <= r.rkey }
+           got  == IdxSet(r.res)
+       IN  got \subseteq want /\ \A i \in want \ got : keys[i] = r.rkey
+
+(* "ok" or the name of the failing clause (the gravest one, so that a
+   boundary miss never hides another failure of the same event).  Construction
+   must succeed for every non-empty data set (the harness never sends an
+   empty one). *)
 SweepClause(e, keys) ==
     IF e.build # "ok" THEN "Build"
     ELSE LET bf == { j \in 1..Len(e.finds) : ~FindOK(e, keys, e.finds[j]) }
          IN  IF bf # {} THEN "Find:k=" \o ToString(e.finds[MinOf(bf)].k)
              ELSE LET br == { j \in 1..Len(e.radii) : ~RadiusOK(e, keys, e.radii[j]) }
-                  IN  IF br # {} THEN "Radius:" \o e.radii[MinOf(br)].kind
-                      ELSE "ok"
+                  IN  IF br = {} THEN "ok"
+                      ELSE LET hard == { j \in br : ~BoundaryMiss(e, keys, e.radii[j]) }
+                           IN  IF hard # {} THEN "Radius:" \o e.radii[MinOf(hard)].kind
+                               ELSE "Radius:at:boundary-miss"
 
 Count(S) == Cardinality(S)
 SweepHits(e, keys, clause) ==
@@ -122,12 +145,21 @@ HeapDrift(e, run) ==
 (***************************************************************************)
 (* KnnPredict                                                              *)
 (***************************************************************************)
+PredValOK(e, keys, out) ==
+    IF e.kind = "cls" THEN PredClassOK(e.weight, keys, e.y, e.k, out)
+    ELSE PredRegOK(e.weight, keys, e.y, e.k, out)
+
 PredOK(e, pr) ==
-    LET keys == Keys(e.metric, e.p, e.X, pr.q) IN
     IF e.k > e.n THEN pr.status = "err"
-    ELSE /\ pr.status = "ok"
-         /\ IF e.kind = "cls" THEN PredClassOK(e.weight, keys, e.y, e.k, pr.out)
-            ELSE PredRegOK(e.weight, keys, e.y, e.k, pr.out)
+    ELSE pr.status = "ok" /\ PredValOK(e, Keys(e.metric, e.p, e.X, pr.q), pr.out)
+
+(* the same query rows passed to predict as one matrix: "for every query row" *)
+BatchOK(e) ==
+    IF e.k > e.n THEN e.batch.status = "err"
+    ELSE /\ e.batch.status = "ok"
+         /\ Len(e.batch.out) = Len(e.preds)
+         /\ \A j \in 1..Len(e.preds) :
+               PredValOK(e, Keys(e.metric, e.p, e.X, e.preds[j].q), e.batch.out[j])
 
 EstClause(e) ==
     IF e.k < 1 THEN (IF e.fit = "err" \/ (e.fit = "ok" /\ \A j \in 1..Len(e.preds) : e.preds[j].status = "err")
@@ -136,16 +168,20 @@ EstClause(e) ==
     ELSE IF e.k > e.n /\ e.fit = "err" THEN "ok"
     ELSE IF e.fit # "ok" THEN "EstFit"
     ELSE LET b == { j \in 1..Len(e.preds) : ~PredOK(e, e.preds[j]) }
-         IN  IF b # {} THEN "EstPredict:q=" \o ToString(MinOf(b)) ELSE "ok"
+         IN  IF b # {} THEN "EstPredict:q=" \o ToString(MinOf(b))
+             ELSE IF ~BatchOK(e) THEN "EstPredictBatch"
+             ELSE "ok"
 
 EstFits(e) == Fits(e.weight, Keys(e.metric, e.p, e.X, e.X[1]), e.y) /\ Len(e.preds) >= 0
+
+(* more than one k-nearest set exists: the k-th key also occurs beyond position k *)
+KthTied(keys, k) == Cardinality({ i \in 1..Len(keys) : keys[i] <= KthKey(keys, k) }) > k
 
 EstHits(e, clause) ==
     IF clause = "unconstrained" THEN [x \in {"EstUnconstrained"} |-> 1]
     ELSE IF clause # "ok" THEN [x \in {"EstFail"} |-> 1]
     ELSE IF e.k < 1 \/ e.k > e.n THEN [x \in {"EstErr"} |-> 1]
-    ELSE LET ties == { j \in 1..Len(e.preds) :
-                         Cardinality(NearSets(Keys(e.metric, e.p, e.X, e.preds[j].q), e.k)) > 1 }
+    ELSE LET ties == { j \in 1..Len(e.preds) : KthTied(Keys(e.metric, e.p, e.X, e.preds[j].q), e.k) }
          IN  [x \in {"ClsPred", "RegPred", "EstTieAtK", "EstDistance"} |->
                 CASE x = "ClsPred" -> IF e.kind = "cls" THEN Len(e.preds) ELSE 0
                   [] x = "RegPred" -> IF e.kind = "reg" THEN Len(e.preds) ELSE 0
